@@ -47,7 +47,7 @@ theorem mem_advPar {suf : List Char} {S : RSet} {i : Nat} {t : List Tok} :
     exact ⟨(i, Tok.par suf :: t), h, by simp⟩
 
 theorem atGo_nil (S : RSet) : atGo S [] = endsHere S := by
-  rw [atGo]
+  simp [atGo, atFuel]
 
 /-- What `{param}`-routes contribute at the current position. -/
 def parStep (S : RSet) (y : Char) (p : List Char) (rec : RSet → List Char → Option Nat) : Option Nat :=
@@ -55,6 +55,39 @@ def parStep (S : RSet) (y : Char) (p : List Char) (rec : RSet → List Char → 
   else match longest (parCands S (splitSeg (y :: p)).1 (splitSeg (y :: p)).2.isEmpty) with
     | none => none
     | some suf => rec (advPar suf S) (splitSeg (y :: p)).2
+
+theorem splitSeg_snd_le' {y : Char} (p : List Char) (h : y ≠ '/') : (splitSeg (y :: p)).2.length ≤ p.length := by
+  unfold splitSeg
+  simp only [List.dropWhile_cons, ne_eq, h, not_false_eq_true, decide_true, ↓reduceIte]
+  exact length_dropWhile_le _ _
+
+/-- More fuel than the path is long changes nothing. -/
+theorem atFuel_mono : ∀ (n m : Nat) (S : RSet) (p : List Char), p.length < n → p.length < m →
+    atFuel n S p = atFuel m S p := by
+  intro n
+  induction n with
+  | zero => intro m S p h; cases h
+  | succ n ih =>
+    intro m S p hn hm
+    cases m with
+    | zero => cases hm
+    | succ m =>
+      cases p with
+      | nil => simp [atFuel]
+      | cons y p =>
+        have hn' : p.length < n := by simpa using hn
+        have hm' : p.length < m := by simpa using hm
+        simp only [atFuel]
+        rw [ih m (advC y S) p hn' hm']
+        by_cases hy : y = '/'
+        · simp [hy]
+        · simp only [hy, ↓reduceIte]
+          have hr := splitSeg_snd_le' p hy
+          cases longest (parCands S (splitSeg (y :: p)).1 (splitSeg (y :: p)).2.isEmpty) with
+          | none => rfl
+          | some suf =>
+            simp only
+            rw [ih m (advPar suf S) (splitSeg (y :: p)).2 (by omega) (by omega)]
 
 theorem atGo_cons (S : RSet) (y : Char) (p : List Char) :
     atGo S (y :: p) =
@@ -64,16 +97,18 @@ theorem atGo_cons (S : RSet) (y : Char) (p : List Char) :
         match parStep S y p atGo with
         | some i => some i
         | none => starHere S := by
-  rw [atGo]
   unfold parStep
-  cases hs : atGo (advC y S) p with
-  | some k => simp
-  | none =>
-    by_cases h : y = '/'
-    · simp [h]
-    · simp only [h, ↓reduceDIte, ↓reduceIte]
+  simp only [atGo, List.length_cons, atFuel]
+  by_cases hy : y = '/'
+  · simp [hy]; rfl
+  · simp only [hy, ↓reduceIte]
+    have hr := splitSeg_snd_le' p hy
+    cases longest (parCands S (splitSeg (y :: p)).1 (splitSeg (y :: p)).2.isEmpty) with
+    | none => rfl
+    | some suf =>
+      simp only
+      rw [atFuel_mono (p.length + 1) ((splitSeg (y :: p)).2.length + 1) (advPar suf S) (splitSeg (y :: p)).2 (by omega) (by omega)]
       rfl
-
 
 /-! ### `matchTok`, equation by equation -/
 
